@@ -6,7 +6,8 @@ C10_safe for the code as it is, C10_count, C10_dry_run, C10_rejected_unchanged, 
 Tie (correspondence): the REAL DeleteHandler behind its fiber route with a real DuckDB and a real
 LocalBackend on generated multi-file datasets with nullable columns of every type and predicates from the
 grammar (comparisons, BETWEEN, IN / NOT IN with NULLs, LIKE, IS [NOT] NULL, boolean columns, NOT/AND/OR,
-IS [NOT] TRUE), plus rejected and erroring WHERE texts and the confirmation gates.  Every case is sent as a
+IS [NOT] TRUE), plus rejected and erroring WHERE texts and the confirmation gates; the files of a measurement may
+differ in schema (the same field BIGINT in one file and DOUBLE in another, columns absent from some files).  Every case is sent as a
 dry run and then for real; responses and the rows of every file afterwards are compared with the model
 inside Coq.  The Kleene evaluator itself is compared with DuckDB's SELECT (<where>) on every generated
 (row, predicate).  The refutation witness is run first and decides which variant of the rewrite
@@ -27,7 +28,7 @@ AREA = "Sql3VL"
 # primary statements = about the current code (KeepIsNotTrue since /repo 33a2304) or about both variants; the last
 # five are about the previous variant (KeepNotPred) and stay as the record of the fixed finding
 THEOREMS = [("Arc.Sql3VL.Props", t) for t in (
-    "C10_exact", "C10_same_count", "C10_count", "C10_dry_run", "C10_rejected_unchanged", "C10_safe",
+    "C10_exact", "C10_same_count", "C10_count", "C10_dry_run", "C10_rejected_unchanged", "C10_partial_reported", "C10_safe",
     "C10_not_keeps_only_false", "C10_exact_refuted", "C10_same_count_refuted", "C10_exact_guarded", "C10_same_count_guarded")]
 MODULES = ["Arc.Sql3VL.Props"]
 TIE_NAME = "C10 correspondence (api.DeleteHandler.handleDelete + DuckDB vs Arc.Sql3VL.Model.delete_run / eval)"
@@ -95,6 +96,51 @@ def gen_value(rng, typ, null_p):
     return ("t", T0 + 500000 * rng.choice([-2, 0, 1, 2, 2, 3, 4, 6]))
 
 
+def file_schema(f):
+    """per-file schema: physical numeric type of a and x in this file, and the absent columns"""
+    return f.get("schema") or {"a": "int", "x": "dbl", "missing": []}
+
+
+def col_type(f, i):
+    name, typ = COLS[i]
+    sc = file_schema(f)
+    return sc.get(name, typ) if name in ("a", "x") else typ
+
+
+def select_list(f):
+    sc = file_schema(f)
+    out = []
+    for i, (name, _) in enumerate(COLS):
+        q = '"time"' if name == "time" else name
+        if i in sc["missing"]:
+            out.append("NULL AS verif_absent_%s" % name)       # (not the column's name: DuckDB would bind the WHERE to the alias)
+        elif name in ("a", "x"):
+            out.append("CAST(%s*4 AS BIGINT) AS %s4" % (q, name))          # exact for BIGINT and for quarter-unit DOUBLEs
+        elif name == "time":
+            out.append('epoch_us("time") AS t_us')
+        else:
+            out.append(q)
+    return ", ".join(out)
+
+
+def gen_schemas(rng, nfiles):
+    """mostly uniform; sometimes the same field is BIGINT in some files and DOUBLE in others (what schemaless
+    ingest produces when a client sends 3 and later 2.75), sometimes a column is absent from some files"""
+    k = rng.random()
+    out = []
+    for i in range(nfiles):
+        sc = {"a": "int", "x": "dbl", "missing": []}
+        if k < 0.40 and nfiles >= 2:
+            sc["a"] = rng.choice(["int", "dbl"])
+            sc["x"] = rng.choice(["dbl", "dbl", "int"])
+        if 0.30 < k < 0.52 and nfiles >= 2 and rng.random() < 0.5:
+            sc["missing"] = sorted(rng.sample([1, 2, 3, 4], rng.choice([1, 1, 2])))
+        out.append(sc)
+    if k < 0.40 and nfiles >= 2 and rng.random() < 0.6:
+        out[0]["a"], out[1]["a"] = "int", "dbl"          # the narrower type in the file that lists first
+    return out
+
+
 def gen_dataset(rng, cid):
     nfiles = rng.choice([1, 2, 2, 3, 3, 4]) if rng.random() > 0.02 else 0     # 0: a measurement without parquet files
     null_p = rng.choice([0.0, 0.15, 0.2, 0.3, 0.3, 0.4, 0.5])
@@ -112,15 +158,29 @@ def gen_dataset(rng, cid):
             nid += 1
         files.append({"path": p, "rows": rows})
     files.sort(key=lambda f: [c.encode() for c in f["path"].split("/")])
+    for f, sc in zip(files, gen_schemas(rng, len(files))):
+        f["schema"] = sc
+        for r in f["rows"]:
+            for i in sc["missing"]:
+                r[i] = ("m", 0)                                   # the file has no such column
+            for i, name in ((1, "a"), (2, "x")):
+                if i in sc["missing"] or r[i] is None:
+                    continue
+                if sc[name] == "dbl" and name == "a" and rng.random() < 0.6:
+                    r[i] = ("n", rng.choice([3, 5, 10, 11, 13, 6, 7, 9]))      # 0.75, 1.25, 2.5, 2.75 ... next to the integers
+                if sc[name] == "int":
+                    r[i] = ("n", 4 * round(r[i][1] / 4))
     return files
 
 
-def create_sql(rows):
-    names = ", ".join('"%s"' % n if n == "time" else n for n, _ in COLS)
+def create_sql(rows, f=None):
+    f = f or {}
+    keep = [i for i in range(len(COLS)) if i not in file_schema(f)["missing"]]
+    names = ", ".join('"%s"' % COLS[i][0] if COLS[i][0] == "time" else COLS[i][0] for i in keep)
     if not rows:
-        dummy = ", ".join(sql_value(None, t, cast=True) for _, t in COLS)
+        dummy = ", ".join(sql_value(None, col_type(f, i), cast=True) for i in keep)
         return "SELECT * FROM (VALUES (%s)) AS t(%s) WHERE false" % (dummy, names)
-    body = ", ".join("(%s)" % ", ".join(sql_value(v, t, cast=True) for v, (_, t) in zip(r, COLS)) for r in rows)
+    body = ", ".join("(%s)" % ", ".join(sql_value(r[i], col_type(f, i), cast=True) for i in keep) for r in rows)
     return "SELECT * FROM (VALUES %s) AS t(%s)" % (body, names)
 
 
@@ -262,6 +322,8 @@ def cvalue(v):
     if v is None:
         return "VNull"
     k, x = v
+    if k == "m":
+        return "VMissing"
     if k == "n":
         return "(VNum %s)" % cz(x)
     if k == "s":
@@ -326,8 +388,10 @@ def obs_value(x, typ):
     return ("t", int(x))
 
 
-def obs_row(r):
-    return [obs_value(x, t) for x, (_, t) in zip(r, COLS)]
+def obs_row(r, f=None):
+    miss = file_schema(f or {})["missing"]
+    # a and x are read back in quarter units whatever their physical type in the file
+    return [("m", 0) if i in miss else obs_value(x, "dbl" if i in (1, 2) else t) for i, (x, (_, t)) in enumerate(zip(r, COLS))]
 
 
 HEADER = """From Coq Require Import List ZArith NArith Bool.
@@ -337,11 +401,11 @@ Close Scope Z_scope.
 Open Scope nat_scope.
 Definition tg (tab : list row) (i : nat) : row := nth i tab [].
 Definition mk_ds (tab : list row) (l : list (N * list nat)) : dataset := map (fun f : N * list nat => (fst f, map (tg tab) (snd f))) l.
-Definition mk_resp (x : Z * bool * Z * Z * Z) : response :=
-  let '(a, b, c, d, e) := x in {| rs_status := a; rs_success := b; rs_deleted := c; rs_affected := d; rs_rewritten := e |}.
+Definition mk_resp (x : Z * bool * Z * Z * Z * Z) : response :=
+  let '(a, b, c, d, e, f) := x in {| rs_status := a; rs_success := b; rs_deleted := c; rs_affected := d; rs_rewritten := e; rs_failed := f |}.
 Definition raw_case : Type :=
   list row * (variant * (Z * Z) * (wclass * bool * pred * bool) * list (N * list nat) * list (list tri) *
-              (Z * bool * Z * Z * Z) * list (N * list nat) * (Z * bool * Z * Z * Z) * list (N * list nat) * bool).
+              (Z * bool * Z * Z * Z * Z) * list (N * list nat) * (Z * bool * Z * Z * Z * Z) * list (N * list nat) * bool).
 Definition mk_case (r : raw_case) : ccase :=
   let '(tab, (v, (th, mx), (cl, full, p, conf), ds, duck, dresp, dds, rresp, after, sib)) := r in
   {| c_variant := v; c_cfg := {| cf_threshold := th; cf_max_rows := mx |};
@@ -378,11 +442,14 @@ def case_to_coq(c, variant):
     if o["dry_bytes_unchanged"]:
         o = dict(o, dry_files=o["before"])
 
+    by_path = {f["path"]: f for f in c["files"]}
+
     def obs_ds(files):
-        return clist(["(%d%%N, %s)" % (nextid(f["path"]), clist(["%d" % rid(obs_row(r)) for r in (f["rows"] or [])])) for f in files])
+        return clist(["(%d%%N, %s)" % (nextid(f["path"]), clist(["%d" % rid(obs_row(r, by_path.get(f["path"]))) for r in (f["rows"] or [])])) for f in files])
 
     # the fixture as DuckDB reads it back must be the fixture that was generated
-    if [(f["path"], [obs_row(r) for r in (f["rows"] or [])]) for f in o["before"]] != [(f["path"], f["rows"]) for f in c["files"]]:
+    gen_rows = [(f["path"], [[None if v is None else tuple(v) for v in r] for r in f["rows"]]) for f in c["files"]]
+    if [(f["path"], [obs_row(r, by_path.get(f["path"])) for r in (f["rows"] or [])]) for f in o["before"]] != gen_rows:
         raise vlib.InfraError("C10 fixture read-back differs from the generated dataset in case %s" % c["id"])
 
     if c["class"] == "WValid" and not o["verdict_err"]:
@@ -391,9 +458,9 @@ def case_to_coq(c, variant):
         duck = "[]"
 
     def cresp(r):
-        return "(%s, %s, %s, %s, %s)" % (cz(r["status"]), cbool(r["success"]), cz(r["deleted"]), cz(r["affected"]), cz(r["rewritten"]))
+        return "(%s, %s, %s, %s, %s, %s)" % (cz(r["status"]), cbool(r["success"]), cz(r["deleted"]), cz(r["affected"]), cz(r["rewritten"]), cz(r["failed"]))
 
-    sib = o["sibling_ok"] and not o["leftovers"] and o["dry"]["failed"] == 0 and o["real"]["failed"] == 0
+    sib = o["sibling_ok"] and not o["leftovers"]
     body = "(%s, (%s, %s), (%s, %s, %s, %s), %s, %s, %s, %s, %s, %s, %s)" % (
         variant, cz(c["threshold"]), cz(c["max_rows"]), c["class"], cbool(c["full"]), cpred(c["pred"]), cbool(c["confirm"]),
         ds, duck, cresp(o["dry"]), obs_ds(o["dry_files"]), cresp(o["real"]), obs_ds(o["after"]), cbool(sib))
@@ -491,7 +558,7 @@ def to_harness(c, idx):
         return re.sub(r"^c\d+/", "c%d/" % idx, p)
     sib_rows = [[("n", 4 * 900), ("n", 4), ("n", 4), ("s", "a"), ("b", True), ("t", T0)], [("n", 4 * 901), None, None, None, None, None]]
     return {"id": idx, "database": "c%d" % idx, "measurement": "m",
-            "files": [{"path": rp(f["path"]), "create_sql": create_sql(f["rows"])} for f in c["files"]],
+            "files": [{"path": rp(f["path"]), "create_sql": create_sql(f["rows"], f), "select_list": select_list(f)} for f in c["files"]],
             "sibling": [{"path": "c%d/m2/2024/01/01/00/s.parquet" % idx, "create_sql": create_sql(sib_rows)},
                         {"path": "c%d/m/notes.txt" % idx, "create_sql": "not a parquet file"}],
             "select_list": SELECT_LIST, "where": c["where"], "confirm": c["confirm"], "threshold": c["threshold"], "max_rows": c["max_rows"]}
@@ -581,7 +648,7 @@ def run(res, tier, seed):
     res.cov["trusted_base"] += [
         "DuckDB's evaluation of the WHERE text is modelled by the Kleene evaluator Arc.Sql3VL.Model.eval over the predicate AST; the SQL printer (tools/props/C10.py) and the evaluator are compared with DuckDB's SELECT (<where>) on every generated (row, predicate) - numbers in this file",
         "values: BIGINT/DOUBLE as exact quarter units (small magnitudes), ASCII strings (bytewise order, LIKE with % and _), booleans, microsecond timestamps; NaN/inf, non-ASCII text, collations, casts, arithmetic and functions in predicates are outside the grammar",
-        "all files of a measurement have the same schema (a file lacking a referenced column makes the single-file rewrite fail and is reported as a failed file; not modelled); local storage backend (the S3/Azure rewrite path runs the same SQL; upload not exercised); standalone mode (no cluster manifest)",
+        "files of a measurement may differ in schema: a numeric field BIGINT in some files and DOUBLE in others (exact in the model; DuckDB's union type DOUBLE is exact for the generated magnitudes) and columns absent from some files (NULL through the union_by_name search, unbound in the single-file rewrite => reported failed file, modelled); other type conflicts (VARCHAR vs numeric) are outside the generator; local storage backend (the S3/Azure rewrite path runs the same SQL; upload not exercised); standalone mode (no cluster manifest)",
         "Parquet write/read round trip by DuckDB (COPY ... TO, read_parquet) preserves values and, with preserve_insertion_order forced as the code does, row order; checked on every case by reading the files back",
     ]
     if tier == "thorough":
@@ -589,7 +656,7 @@ def run(res, tier, seed):
         if not ok:
             failed.append(("coqchk", "coqchk did not accept the compiled development"))
 
-    n = int(os.environ.get("VERIF_N") or (380 if tier == "quick" else 4000))
+    n = int(os.environ.get("VERIF_N") or (340 if tier == "quick" else 4000))
     t1 = time.time()
     wit = witness_cases()
     cases = wit + [gen_case(rng, 1000 + i) for i in range(n)]
@@ -613,12 +680,17 @@ def run(res, tier, seed):
     res.cov["distinct_nontrivial"] = len(keys)
     res.cov["rule"] = ("datasets of 1-4 parquet files (0-6 rows, columns BIGINT/BIGINT/DOUBLE/VARCHAR/BOOLEAN/TIMESTAMP, NULL density 0-50 %) x WHERE texts "
                        "(grammar predicates of depth <= 3; rejected texts; texts DuckDB refuses; full-table forms) x confirm flag / threshold / max_rows gates; "
+                       "per-file schemas (same field BIGINT in one file and DOUBLE in another, columns absent from some files); "
                        "each sent as dry run then for real; non-trivial = >= 1 NULL in a referenced column and >= 2 atoms; distinct by sha1(files, where, gates)")
     res.cov["model_vs_impl_disagreements"] = len(dis)
     res.cov["oracle_failures"] = len(r["oracle"])
     hist = {"kind": {}, "status_real": {}, "status_dry": {}, "atoms": {}, "files": {}, "atom_kinds": {},
             "cases_with_null_verdict_in_affected_file": sum(1 for c in valid if has_signature(c)),
-            "files_removed_entirely": sum(1 for c in out if len(c["obs"]["after"]) < len(c["files"]))}
+            "files_removed_entirely": sum(1 for c in out if len(c["obs"]["after"]) < len(c["files"])),
+            "datasets_with_mixed_numeric_type": sum(1 for c in out if len({file_schema(f)["a"] for f in c["files"]} ) > 1 or len({file_schema(f)["x"] for f in c["files"]}) > 1),
+            "datasets_with_absent_column": sum(1 for c in out if any(file_schema(f)["missing"] for f in c["files"])),
+            "files_judged_through_union_read": sum(len(c["obs"].get("unbound") or []) for c in out),
+            "runs_with_failed_rewrite_207": sum(1 for c in out if c["obs"]["real"]["status"] == 207)}
     for c in out:
         hist["kind"][c.get("kind", "corpus")] = hist["kind"].get(c.get("kind", "corpus"), 0) + 1
         for k, rr in (("status_real", c["obs"]["real"]), ("status_dry", c["obs"]["dry"])):
